@@ -298,6 +298,58 @@ theorem whitener_setter_overrides {ε : Type}
 
 end linear
 
+/-! ### below the guards: what the code does with columns it treats as constant -/
+section subeps
+variable {α : Type} [Field α] [LinearOrder α] [IsStrictOrderedRing α] [Transc α]
+
+theorem invOrOne_of_le (eps s : α) (hs : 0 ≤ s) (h : s ≤ eps) : invOrOne eps s = 1 := by
+  unfold invOrOne absDiffEq
+  rw [absS_eq, sub_zero, abs_of_nonneg hs]
+  simp [h]
+
+/-- **below the guard nothing is scaled** (open finding `C16-sub-eps-standard`, for every matrix): a column
+whose standard deviation is at most `eps` — constant or not — keeps its variance; so a non-constant
+column with `0 < std ≤ eps` does not come out with variance one. -/
+theorem standard_sub_eps_unscaled (hsq : SqrtContract α) (eps : α) (p : Nat)
+    (rows : List (List α)) (wm : Bool)
+    (hn : rows ≠ []) (hrows : ∀ r ∈ rows, r.length = p) (j : Nat) (hj : j < p)
+    (hsub : stdCol (col rows j) ≤ eps) :
+    ∃ sc y, fitStandard eps p rows wm true = .ok sc ∧ transform sc p rows = some y ∧
+      varCol 0 (col y j) = varCol 0 (col rows j) := by
+  obtain ⟨sc, y, h1, h2, h3⟩ := standard_column eps p rows wm true hn hrows j hj
+  refine ⟨sc, y, h1, h2, ?_⟩
+  rw [h3, varCol_affine]
+  simp only [stdScale, if_true]
+  have hnn : 0 ≤ stdCol (col rows j) := (hsq _ (varCol_nonneg _)).2
+  rw [invOrOne_of_le eps _ hnn hsub]
+  ring
+
+/-- the same for max-abs scaling (open finding `C16-sub-eps-maxabs`): a column with `max|x| ≤ eps` is
+returned as it is, so its maximum absolute value stays `max|x|`, not one. -/
+theorem maxabs_sub_eps_unscaled (eps : α) (p : Nat) (rows : List (List α))
+    (hn : rows ≠ []) (hrows : ∀ r ∈ rows, r.length = p) (j : Nat) (hj : j < p)
+    (hsub : normMax (col rows j) ≤ eps) :
+    ∃ sc y, fitMaxAbs eps p rows = .ok sc ∧ transform sc p rows = some y ∧ col y j = col rows j := by
+  have hlen : ¬ rows.length = 0 := by
+    intro h; exact hn (List.length_eq_zero_iff.mp h)
+  let sc : Scaler α :=
+    { offsets := (cols p rows).map (fun _ => 0)
+      scales := (cols p rows).map (fun c => invOrOne eps (normMax c))
+      method := .maxAbs }
+  have hfit : fitMaxAbs eps p rows = .ok sc := by
+    unfold fitMaxAbs; rw [if_neg hlen]
+  have ho : sc.offsets.length = p := by simp [sc, cols]
+  have hs : sc.scales.length = p := by simp [sc, cols]
+  refine ⟨sc, rows.map (transformRow sc), hfit, transform_some sc p rows ho hrows, ?_⟩
+  rw [col_map_transformRow sc p rows ho hs hrows j hj]
+  have hoj : sc.offsets.getD j 0 = 0 := getD_cols_map (fun _ => (0 : α)) p rows j hj
+  have hsj : sc.scales.getD j 0 = invOrOne eps (normMax (col rows j)) :=
+    getD_cols_map (fun c => invOrOne eps (normMax c)) p rows j hj
+  rw [hoj, hsj, invOrOne_of_le eps _ (normMax_spec _).1 hsub]
+  simp [sc, transformCell]
+
+end subeps
+
 /-! ### norm scaler -/
 section norm
 variable {α : Type} [Field α] [LinearOrder α] [IsStrictOrderedRing α] [Transc α]
@@ -787,7 +839,52 @@ example : (∀ x ∈ col ([[7, 2], [7, 5]] : List (List ℚ)) 0, x = 7) ∧
     ((Params.maxAbs (α := ℚ)).setMethod (.standard true false)).method = .standard true false := by
   simp [col, Params.setMethod]
 
+/-- `standard_sub_eps_unscaled` / `maxabs_sub_eps_unscaled`: a non-constant column below the machine epsilon -/
+example : normMax (col ([[1 / 2 ^ 60], [1 / 2 ^ 61]] : List (List ℚ)) 0) ≤ 1 / 2 ^ 52 := by
+  simp [col, normMax, maxS, absS]; norm_num
+
+/-- `pca_whitens` / `pca_fit_cov`: the SVD contract is satisfiable on non-trivial data — two uncorrelated
+centred features with Gram matrix `diag(16, 4)`, `Vᵀ = I`, `s = [4, 2]`, all above the floor `1e-8` -/
+example :
+    let rows : List (List ℚ) := [[2, 1], [-2, 1], [2, -1], [-2, -1]]
+    let vt : List (List ℚ) := [[1, 0], [0, 1]]
+    let s : List ℚ := [4, 2]
+    (∀ i j, i < 2 → j < 2 →
+      (rows.map fun r => (r.getD i 0 - meanCol (col rows i)) * (r.getD j 0 - meanCol (col rows j))).sum =
+        ∑ k ∈ Finset.range vt.length, wE vt k i * (s.getD k 0 * s.getD k 0) * wE vt k j) ∧
+    (∀ a b, a < vt.length → b < vt.length →
+      ∑ i ∈ Finset.range 2, wE vt a i * wE vt b i = if a = b then 1 else 0) ∧
+    (∀ a, a < vt.length → (1 / 10 ^ 8 : ℚ) ≤ s.getD a 0) := by
+  intro rows vt s
+  refine ⟨?_, ?_, ?_⟩
+  · intro i j hi hj
+    have h2a : i = 0 ∨ i = 1 := by omega
+    have h2b : j = 0 ∨ j = 1 := by omega
+    rcases h2a with rfl | rfl <;> rcases h2b with rfl | rfl <;>
+      simp [Finset.sum_range_succ, wE, col, meanCol, sumS, rows, vt, s] <;> norm_num
+  · intro a b ha hb
+    have ha' : a < 2 := ha
+    have hb' : b < 2 := hb
+    have h2a : a = 0 ∨ a = 1 := by omega
+    have h2b : b = 0 ∨ b = 1 := by omega
+    rcases h2a with rfl | rfl <;> rcases h2b with rfl | rfl <;>
+      simp [Finset.sum_range_succ, wE, vt]
+  · intro a ha
+    have ha' : a < 2 := ha
+    have h2a : a = 0 ∨ a = 1 := by omega
+    rcases h2a with rfl | rfl <;> simp [s] <;> norm_num
+
+/-- `pca_floor_hit_not_white`: a singular value below the floor — `s = [1 / 10^9]` against the floor `1 / 10^8` -/
+example : (0 : ℚ) ≤ ([1 / 10 ^ 9] : List ℚ).getD 0 0 ∧ ([1 / 10 ^ 9] : List ℚ).getD 0 0 < 1 / 10 ^ 8 := by
+  simp; norm_num
+
 noncomputable local instance : Transc ℝ := ⟨Real.sqrt, id, id⟩
+
+/-- `fit_ignores_weights_targets`: a weighted dataset and the same records without weights reach the same fit -/
+example : fitDataset (T := Unit) (W := List Nat) (1 / 2 ^ 52 : ℝ) 1 (Params.minMax)
+      { records := [[1], [3]], targets := (), weights := [5, 1], featureNames := [], targetNames := [] } =
+    fitMinMax (1 / 2 ^ 52 : ℝ) 1 [[1], [3]] 0 1 := rfl
+
 
 /-- the square-root contract holds for the real square root -/
 example : SqrtContract ℝ := fun x hx => ⟨Real.mul_self_sqrt hx, Real.sqrt_nonneg x⟩
